@@ -100,6 +100,37 @@ func genC05(r *Rng, n int, tier string, emit func(Case)) {
 				what += "&attributes(" + sp + ") "
 			}
 		}
+		if rr.Chance(1, 12) {
+			// an object LITERAL (its own key order, not alphabetical) spread on the tag, with and without Object.keys() having looked
+			// at it first: the attributes and their order depend on the object's contents only. Judged against the model.
+			lit := eObj("title", eId("h"), "id", eStr("i1"), "data-a", eStr("1"), "lang", eStr("en"), "alt", eId("word"))
+			t := nTag("a", false, nil, nText("body"))
+			t["ablocks"] = []interface{}{"lit"}
+			doc := []interface{}{nRaw(sVar("lit", lit))}
+			if rr.Bool() {
+				doc = append(doc, nRaw(sVar("ks", eCall(eDot(eId("Object"), "keys"), eId("lit")))))
+			}
+			doc = append(doc, t)
+			emit(Case{"kind": "render", "doc": doc, "data": data, "bucket": "literal-spread", "nattrs": 5, "what": "object literal spread"})
+			continue
+		}
+		// the same attributes given to a MIXIN CALL whose body spreads `attributes` on its tag: `+m.primary.large(title=t)`. Only when
+		// every attribute is escaped and there is no extra spread (then the two forms are the same tag).
+		allEsc := tag["ablocks"] == nil || len(asList(tag["ablocks"])) == 0
+		for _, a := range attrs {
+			if esc, _ := asJ(a)["esc"].(bool); !esc {
+				allEsc = false
+			}
+		}
+		if allEsc && len(attrs) > 0 && rr.Chance(1, 4) {
+			name := tag["name"].(string)
+			inner := nTag(name, false, nil, nText("body"))
+			inner["ablocks"] = []interface{}{"attributes"}
+			doc := []interface{}{nMixin("m", nil, inner), nCall("m", nil, attrs)}
+			emit(Case{"kind": "render", "oracle": "attrs", "doc": doc, "spec_doc": []interface{}{tag}, "data": data, "bucket": "mixin-call", "nattrs": len(attrs),
+				"what": "mixin call: " + what})
+			continue
+		}
 		emit(Case{"kind": "render", "oracle": "attrs", "doc": []interface{}{tag}, "data": data, "bucket": "tag", "nattrs": len(attrs), "what": what})
 	}
 }
